@@ -197,42 +197,56 @@ def _lower_bound_over(name, base):
     return None
 
 
+TERM_BOUNDS = {}     # id of a reference term -> ((A, c), (B, d)):  A + c < term <= B + d  (learnt from `fresh(E)` clauses of callees: allocated during that call)
+
+
+def _form_le(f, g):
+    """(X, c) <= (Y, d) as allocation forms: True if certainly X + c <= Y + d, else None"""
+    (x, c), (y, d) = f, g
+    if x == y:
+        return True if c <= d else None
+    lb = _lower_bound_over(y, x)        # y >= x + lb
+    if lb is not None and lb + d >= c:
+        return True
+    return None
+
+
+def _ref_interval(t, params):
+    """(lo, hi) with lo < t <= hi as allocation forms (name, offset); lo None = no lower bound known (an entry-state reference: hi = alloc0)"""
+    if _is_prestate_ref(t, params):
+        return None, ("alloc0", 0)
+    f = _alloc_form(t)
+    if f is not None and not f[2]:
+        return (f[0], f[1] - 1), (f[0], f[1])
+    return TERM_BOUNDS.get(t.get_id())
+
+
 def _le_bound(idx, bound, params):
     """is idx <= bound?  True / False / None (unknown).  idx: a reference term; bound: an allocation bound"""
     bf = _alloc_form(bound)
     if bf is None:
         return None
-    if _is_prestate_ref(idx, params):
-        return True                     # existed at entry: <= alloc0 <= every later bound
-    f = _alloc_form(idx)
-    if f is None or f[2]:
+    iv = _ref_interval(idx, params)
+    if iv is None:
         return None
-    (x, c, _), (y, d, ylens) = f, bf
-    lb = _lower_bound_over(y, x)        # y >= x + lb
-    if lb is not None and lb + d >= c:
+    lo, hi = iv
+    if _form_le(hi, (bf[0], bf[1])):          # idx <= hi <= bound (+ lengths >= 0)
         return True
-    if not ylens:
-        lb2 = _lower_bound_over(x, y)   # x >= y + lb2
-        if lb2 is not None and lb2 + c > d:
-            return False
+    if lo is not None and not bf[2] and _form_le((bf[0], bf[1]), lo):      # bound <= lo < idx
+        return False
     return None
 
 
 def _distinct_refs(i, j, params):
     """are the two reference terms certainly different objects?"""
-    pi, pj = _is_prestate_ref(i, params), _is_prestate_ref(j, params)
-    fi, fj = _alloc_form(i), _alloc_form(j)
-    if (pi and fj is not None and fj[1] >= 1) or (pj and fi is not None and fi[1] >= 1):
-        return True                     # one existed at entry, the other was allocated later
-    if fi is not None and fj is not None and not fi[2] and not fj[2]:
-        if fi[0] == fj[0]:
-            return fi[1] != fj[1]
-        lb = _lower_bound_over(fi[0], fj[0])
-        if lb is not None and lb + fi[1] > fj[1]:
-            return True
-        lb = _lower_bound_over(fj[0], fi[0])
-        if lb is not None and lb + fj[1] > fi[1]:
-            return True
+    a, b = _ref_interval(i, params), _ref_interval(j, params)
+    if a is None or b is None:
+        return False
+    (alo, ahi), (blo, bhi) = a, b
+    if blo is not None and _form_le(ahi, blo):      # i <= ahi <= blo < j
+        return True
+    if alo is not None and _form_le(bhi, alo):
+        return True
     return False
 
 
@@ -1665,7 +1679,43 @@ class Engine:
         if c.returns == NONE or c.returns is None:
             return k(st, VNONE)
         res = self.alias_result(st, c, res, se2, n_pc0)
+        self.learn_fresh(st, c, se2, old_heap_state.heap.alloc)
         return k(st, res)
+
+    def learn_fresh(self, st, c, se2, alloc_before):
+        """`fresh(E)` in a callee's ensures (unconditional, or under a condition that holds on this path): the object E was allocated during the call,
+        so  alloc_before < E <= alloc_after  -- recorded for the heap-read resolution (TERM_BOUNDS)"""
+        lo, hi = _alloc_form(alloc_before), _alloc_form(st.heap.alloc)
+        if lo is None or hi is None or lo[2] or hi[2]:
+            return
+        for e in c.ensures:
+            node = ast.parse(e.strip(), mode="eval").body
+            cond = None
+            if isinstance(node, ast.Call) and isinstance(node.func, ast.Name) and node.func.id == "implies" and len(node.args) == 2:
+                cond, node = node.args[0], node.args[1]
+            conj = node.values if isinstance(node, ast.BoolOp) and isinstance(node.op, ast.And) else [node]
+            fr = [x.args[0] for x in conj if isinstance(x, ast.Call) and isinstance(x.func, ast.Name) and x.func.id == "fresh" and len(x.args) == 1]
+            if not fr:
+                continue
+            if cond is not None:
+                try:
+                    cnd = se2.boolean(cond)
+                except Unsupported:
+                    continue
+                sv = z3.Solver()
+                sv.set("timeout", 2000)
+                sv.add(*[h for h in st.pc if not z3.is_quantifier(h)])
+                sv.add(z3.Not(cnd))
+                if sv.check() != z3.unsat:
+                    continue
+            for x in fr:
+                try:
+                    v = se2.eval(x)
+                except Unsupported:
+                    continue
+                if v.s[0] in ("ref", "list") and z3.is_expr(v.t):
+                    TERM_BOUNDS[z3.simplify(v.t).get_id()] = ((lo[0], lo[1]), (hi[0], hi[1]))
+                    TERM_BOUNDS[v.t.get_id()] = ((lo[0], lo[1]), (hi[0], hi[1]))
 
     def alias_result(self, st, c, res, se2, n_pc0):
         """a clause `result is E` / `implies(C, result is E)` whose condition holds on this path: the result IS that known reference,
